@@ -184,7 +184,64 @@ def gen_mut(rng):
     return [l for p in out for l in (p.splitlines() or [""])]
 
 
-GENS = [("rendered", gen_rendered), ("c15-malformed", gen_c15), ("mutations", gen_mut)]
+def directed_lines():
+    """(d) systematic enumeration: every mnemonic x operand shape x spelling (no blank, tab, upper case, capitalised, in-line
+    label, label named like the mnemonic, characters that case-fold to ASCII letters), every register spelling incl. invalid
+    ones, number spellings in every operand position, quoted strings (tabs at several columns, doubled and escaped quotes,
+    \\x escapes, unterminated), directives, declarations and punctuation faults"""
+    from common import MNEMONICS
+    lines = []
+    MN = MNEMONICS + ["li", "la", "mv", "nop"]
+    SUB = {"i": ["ı", "İ", "I"], "s": ["ſ", "S"], "k": ["K", "K"], "l": ["L"], "a": ["A"], "e": ["E"]}
+    OPS = ["x1, x2, x3", "x1, x2, 5", "x1, 4(x2)", "x1, foo", "x1, foo[1], x2", "x1, 5", "x1, x2", "x1, 0x300, x2", "x1, 0x300, 3", "x1, x2, foo+0x4", "x1, foo+0x8", "a0,a1,a2", ""]
+    for m in MN:
+        for ops in OPS:
+            for sep in [" ", "", "\t"]:
+                lines.append(m + sep + ops)
+                lines.append(m.upper() + sep + ops)
+                lines.append("lbl: " + m.capitalize() + sep + ops)
+                lines.append(m + ": " + m + sep + ops)
+            for k, c in enumerate(m):
+                for r in SUB.get(c, []):
+                    lines.append(m[:k] + r + m[k+1:] + " " + ops)
+                    lines.append(m[:k].upper() + r + m[k+1:].upper() + " " + ops)
+    # registers
+    REGS = ["zero","ra","sp","gp","tp","fp"] + ["t%d"%i for i in range(8)] + ["s%d"%i for i in range(13)] + ["a%d"%i for i in range(9)] + ["x%d"%i for i in range(34)] + ["x 7", "x\t12", "x01", "X1", "A0", "x", "s", "x1x", "x1 0"]
+    for r in REGS:
+        lines += ["add %s, %s, %s" % (r, r, r), "add%s,%s,%s" % (r, r, r), "lw %s, 0(%s)" % (r, r), "mv %s,%s" % (r, r), "fence %s, %s" % (r, r), "li%s,1" % r, "jal%s,8" % r, "jalr%s,%s,8" % (r, r)]
+    # numbers
+    NUMS = ["0", "00", "007", "12", "-12", "- 12", "+12", "0x1f", "0X1f", "0x1G", "-0xAb", "0x", "0b", "0b102", "0b1", "-0b0", "0o7", "1_000", "1e3", "１２", "٣", "--1", "-", "0x-1", "0 x1", "0b 1", "12abc", "0xabcdefABCDEF0123456789"]
+    for n in NUMS:
+        lines += ["li x1, " + n, "addi x1, x2, " + n, "lw x1, %s(x2)" % n, "lw x1, %s (x2)" % n, "v: .word " + n, "v: .byte 1, %s, 2" % n, "v: .half %s,%s" % (n, n), "z: .zero " + n,
+                  "csrrw x1, %s, x2" % n, "csrrwi x1, %s, %s" % (n, n), "jal x1, " + n, "beq x1, x2, " + n, "beq x1, x2, foo+" + n, "jal x1, foo +" + n, "la x1, foo[%s]" % n, "lui x1," + n]
+    # strings with tabs at various columns, quotes, escapes
+    for pre in ["m:", "m: ", "m:\t", "m :  ", "\tm:", "longer_name_1:"]:
+        for d in [".string", ". string", ".string ", ".string\t", ".String", ".strings"]:
+            for s in ['"a\tb"', '"\t"', '"a""b"', '"a"b"', "'a\tb'", "'it''s'", '"a\\"b"', '"a\\\\"', '"a\\"', '"\\x41\\x4g"', '"\\xg"', '"\\x"', '"x\\', '""', "''", '"', '"abc', '"a#b"', '"a" # c', '"a"\t', '"a" x', '"é\tΩ"', '"a\'b"', "'a\"b'", '"\\', '"a\\x4"1"']:
+                lines.append(pre + d + s)
+                lines.append(pre + d + " " + s)
+    # directives / declarations
+    for l in [".data", ".text", ". data", ".\ttext", ".Data", ".dataa", ".data .text", ".bss", ".", "..data", ".word 1", "a: .word", "a: .word 1 2", "a: .word 1,2,3", "a: .word 1 , 2 ,3", "a: .word 1,,2", "a: .word ,1", "a: .word 1,", "a:.word 1", "a : . word 1", "1a: .word 1", "a b: .word 1", "a: .wordx 1", "a: .word1", "a: .byte0x1,2", "a: .half-1", "a: .zero 3", "a: .zero3", "a: .zero -3", "a: .zero 3,4", "a: .zero", "a: .zero 3 4", "a::", "a:", "a :", ":a", "a", "_", "_:", "a1_:", "a: b:", "a: b: nop", "a: nop", "a:nop", "a: .data", "a: ecall x", "ecall ebreak", "ecallx", "nop:", "nop: nop", "x1: add x1,x1,x1", "text: .word 1", "é: nop", "aé: nop", "a\xa0: nop", "\xa0a: nop\xa0", "\u3000 nop \u2003# c", "nop\x1f", "\x1fnop", "nop\x1fnop", "nop \x00", "# c", " \t# c", "#", "", "   ", "\t", "\xa0", "nop#", "nop #\tc", "#nop", "a: .string \"x#y\"", "a: .word 1 # 2", "add x1,x2,x3,", "add x1,x2,x3 x4", "add ,x1,x2,x3", "add x1 x2 x3", "add x1,,x2,x3", "lw x1, 4(x2", "lw x1, 4 x2)", "lw x1, (x2)", "lw x1, 4()", "lw x1, 4((x2))", "lw x1, 4(x2))", "sw x1, foo[1],x2", "sw x1, foo [1], x2", "sw x1, foo[ 1], x2", "sw x1, foo[1 ], x2", "sw x1, foo[], x2", "sw x1, foo[1][2], x2", "sw x1, foo[1]", "la x1, foo[1]x", "la x1, 5", "la x1, x2, 3", "lw x1, x2, foo", "beq x1, x2, foo + 0x4", "beq x1, x2, foo +0x4", "beq x1, x2, foo+ 0x4", "beq x1, x2, foo+0x", "beq x1, x2, foo+0x4+0x4", "beq x1, x2, foo-0x4", "beq x1, x2, +0x4", "jal x1, foo[1]", "jal x1", "jal x1,", "jal ,8", "jal foo", "jal x1, -8", "jal x1, - 8", "j foo", "ret", "call foo", "not x1, x2", "li x1, foo", "lui x1, foo", "fence", "fence x1", "fence x1, x2, x3", "fence iorw, iorw", "csrrw x1, foo, x2", "csrrwi x1, 1, x2", "csrrw x1, 1, 2", "mv x1, 5", "mv x1, x2, x3"]:
+        lines.append(l)
+        lines.append("  " + l + "  ")
+        lines.append("q: " + l)
+    return [l for l in lines if in_domain(l)]
+
+
+def gen_strings(rng):
+    """(e) string declarations with tabs, quotes, backslashes, '#', non-ASCII at random columns"""
+    out = []
+    for _ in range(rng.randrange(2, 8)):
+        q = rng.choice(['"', '"', "'"])
+        body = "".join(rng.choice(["a", "b", " ", "\t", "\t", q, q + q, "\\", "\\" + q, "\\x4", "\\x", "\\n", "#", "é", "Ω", "'", '"', ",", "ı"])
+                       for _ in range(rng.randrange(0, 9)))
+        pre = rng.choice(["", " ", "\t", "  \t"]) + rng.choice(["m", "msg_1", "s"]) + rng.choice([":", ": ", ":\t", " :  "])
+        post = rng.choice(["", "", " ", "\t", " # c", "#", " x", q])
+        out.append(pre + rng.choice([".string", ".string ", ".string\t", ". string "]) + q + body + rng.choice([q, q, q, ""]) + post)
+    return [l for p in out for l in (p.splitlines() or [""])]
+
+
+GENS = [("rendered", gen_rendered), ("c15-malformed", gen_c15), ("mutations", gen_mut), ("strings", gen_strings)]
 
 
 def main(n_lines=60000, seed=1):
@@ -194,8 +251,20 @@ def main(n_lines=60000, seed=1):
     bad = []
     total = 0
     texts = 0
+    stats["directed"] = Counter()
+    dl = directed_lines()
+    for l, m in zip(dl, coq.lines(dl)):
+        try:
+            w = real_line(l)
+        except ConvertError as e:
+            w = ["converr", str(e)]
+        stats["directed"][("skip", "syntax", "ok")[w[0]] if isinstance(w[0], int) else "converr"] += 1
+        if w != m:
+            stats["directed"]["DISAGREE"] += 1
+            bad.append(("directed", l, w, m))
+    total += len(dl)
     while total < n_lines:
-        name, g = GENS[rng.choices([0, 1, 2], [3, 3, 4])[0]]
+        name, g = GENS[rng.choices([0, 1, 2, 3], [6, 6, 8, 1])[0]]
         lines = [l for l in g(rng) if in_domain(l)]
         if not lines:
             continue
@@ -225,7 +294,7 @@ def main(n_lines=60000, seed=1):
         total += len(lines)
     coq.close()
     print("lines", total, "texts", texts)
-    for name, _ in GENS:
+    for name in stats:
         print(name, dict(stats[name]))
     print("disagreements", len(bad))
     for b in bad[:25]:
